@@ -47,8 +47,8 @@ var numClasses = []struct {
 }{
 	{"1", 3}, {"count-1", 3}, {"count", 4}, {"count+1", 4}, {"mid", 3},
 	{"uid-present", 4}, {"uid-gap", 3}, {"maxuid-1", 1}, {"maxuid+1", 2}, {"*", 4},
-	{"2^31-1", 1}, {"2^31", 1}, {"2^32-1", 2}, {"2^32", 2}, {"2^32+k", 3},
-	{"2^63-1", 1}, {"2^63", 1}, {"2^64", 1}, {"2^64+k", 2}, {"10^30+k", 2},
+	{"2^32+k", 3}, {"2^32", 2}, {"2^32-1", 2}, {"2^31-1", 1}, {"2^31", 1},
+	{"2^64+k", 2}, {"10^30+k", 2}, {"2^63-1", 1}, {"2^63", 1}, {"2^64", 1},
 }
 
 var (
@@ -58,13 +58,16 @@ var (
 )
 
 func init() {
-	for _, c := range numClasses {
-		for i := 0; i < c.weight; i++ {
-			classBag = append(classBag, c.name)
+	// round-robin over the classes (rapid's SampledFrom favours the front of the slice: no class should own it)
+	for round := 0; round < 4; round++ {
+		for _, c := range numClasses {
+			if c.weight > round {
+				classBag = append(classBag, c.name)
+			}
 		}
 	}
 
-	classBagZero = append([]string{"0", "0", "0", "0"}, classBag...)
+	classBagZero = append([]string{"0", "0", "0", "0", "0", "0"}, classBag...)
 }
 
 func atLeast1(v int) uint64 {
@@ -91,12 +94,12 @@ func wrapTarget(t *rapid.T, v *vinfo, uidFlavour bool) uint64 {
 }
 
 // genNum draws one number. safe restricts the classes to those inside a non-empty view (sequence flavour).
-func genNum(t *rapid.T, v *vinfo, uidFlavour, safe bool) num {
+func genNum(t *rapid.T, v *vinfo, uidFlavour, safe, zeroOK bool) num {
 	bag := classBag
 	if safe {
 		bag = classBagSafe
-	} else if rapid.IntRange(0, 5).Draw(t, "zeroOK") == 3 {
-		bag = classBagZero // 0 is not an nz-number: it turns the whole command into a syntax error, keep it rare
+	} else if zeroOK {
+		bag = classBagZero
 	}
 
 	cls := rapid.SampledFrom(bag).Draw(t, "class")
@@ -182,18 +185,18 @@ func wrapsPastParser(n num) bool {
 
 var shapes = []string{"single", "single", "single", "range", "range", "range", "n:*", "*:n", "*", "*:*"}
 
-func genPart(t *rapid.T, v *vinfo, uidFlavour, safe bool) part {
+func genPart(t *rapid.T, v *vinfo, uidFlavour, safe, zeroOK bool) part {
 	star := num{Star: true, Cls: "*"}
 
 	switch rapid.SampledFrom(shapes).Draw(t, "shape") {
 	case "single":
-		return part{A: genNum(t, v, uidFlavour, safe)}
+		return part{A: genNum(t, v, uidFlavour, safe, zeroOK)}
 	case "range": // both orders arise by themselves
-		return part{A: genNum(t, v, uidFlavour, safe), B: genNum(t, v, uidFlavour, safe), Range: true}
+		return part{A: genNum(t, v, uidFlavour, safe, zeroOK), B: genNum(t, v, uidFlavour, safe, zeroOK), Range: true}
 	case "n:*":
-		return part{A: genNum(t, v, uidFlavour, safe), B: star, Range: true}
+		return part{A: genNum(t, v, uidFlavour, safe, zeroOK), B: star, Range: true}
 	case "*:n":
-		return part{A: star, B: genNum(t, v, uidFlavour, safe), Range: true}
+		return part{A: star, B: genNum(t, v, uidFlavour, safe, zeroOK), Range: true}
 	case "*":
 		return part{A: star}
 	default:
@@ -206,8 +209,11 @@ func genSet(t *rapid.T, v *vinfo, uidFlavour, safe bool) mset {
 	n := rapid.SampledFrom([]int{1, 1, 1, 1, 2, 2, 2, 3, 3, 4, 5, 6, 7, 8}).Draw(t, "parts")
 	set := make(mset, 0, n)
 
+	// 0 is not an nz-number: it turns the whole command into a syntax error, so it is admitted in few sets only
+	zeroOK := !safe && rapid.IntRange(0, 24).Draw(t, "zeroOK") == 11
+
 	for i := 0; i < n; i++ {
-		set = append(set, genPart(t, v, uidFlavour, safe))
+		set = append(set, genPart(t, v, uidFlavour, safe, zeroOK))
 	}
 
 	return set
